@@ -40,9 +40,9 @@ OBJECT_STARTS = {
 }
 
 OBJECT_MENU = [
-    st("p1", "X"), st("p2", "X"), st("p3", "X"), st("p1", "Y"),
+    st("p1", "X"), st("p2", "X"), st("p1.v2", "X"), st("p1", "Y"),
     st("p1", "X", checksum="wrong", calgo="md5"), st(None, "X"),
-    tag("p1", "X"), tag("p2", "X"), tag("p3", "X"), tag("p1", "Y"),
+    tag("p1", "X"), tag("p2", "X"), tag("p1.v2", "X"), tag("p1", "Y"),
     dele("p1"), dele("p2"), dii("X", True), dii("X", False),
 ]
 
@@ -91,7 +91,7 @@ def object_pair_scenarios(mode="th"):
             if not (related or control):
                 continue
             name = f"{sname}|{call_name(oa)}||{call_name(ob)}"
-            out.append(C.Scenario(name, start, [oa, ob], SPEC, pids=["p1", "p2", "p3"], mode=mode, start_class=sname))
+            out.append(C.Scenario(name, start, [oa, ob], SPEC, pids=["p1", "p2", "p1.v2"], mode=mode, start_class=sname))
     return out
 
 
@@ -106,7 +106,7 @@ def object_triple_scenarios(rng, n, mode="th"):
         if not (ids[0] & ids[1] or ids[1] & ids[2] or ids[0] & ids[2]):
             continue
         name = f"{sname}|" + "||".join(call_name(o) for o in ops)
-        out.append(C.Scenario(name, start, ops, SPEC, pids=["p1", "p2", "p3"], mode=mode, start_class=sname))
+        out.append(C.Scenario(name, start, ops, SPEC, pids=["p1", "p2", "p1.v2"], mode=mode, start_class=sname))
     return out
 
 
